@@ -98,6 +98,11 @@ pub fn harness_natives(builder: &mut GlobalsBuilder) {
         eval.eval_function(f, &args.items, &[])
     }
 
+    /// Call `f()`; true iff the call failed (used to batch calls expected to be ill-formed).
+    fn fails<'v>(f: Value<'v>, eval: &mut Evaluator<'v, '_, '_>) -> anyhow::Result<bool> {
+        Ok(eval.eval_function(f, &[], &[]).is_err())
+    }
+
     /// Total tick count so far.
     fn tick_count(eval: &mut Evaluator) -> anyhow::Result<i32> {
         Ok(eval.get_total_tick_count() as i32)
